@@ -14,7 +14,7 @@ use serde_json::json;
 use std::cell::Cell;
 use std::rc::Rc;
 
-pub const RULE: &str = "lock-step differential execution for all nine structures (TDigest with K0..K3, CMS with u32 counters): (1) pre-clear history of 1..1e4 operations incl. failed inserts/unions, clear(), then the cleared structure and a freshly constructed one (same configuration; eviction/sampling RNG rewound to the same stream) receive the same continuation of 1..2000 operations and every observable and every return value is compared after every step (bit-exact for floats); (2) clones at random points: equal observables at clone time, clone unchanged by mutation of the original and vice versa; (3) is_empty() right after creation/clear and after the first successful add. non-trivial = run whose pre-clear history had >= 10 operations and whose continuation had >= 10; distinct = (structure, config, seed) tuples";
+pub const RULE: &str = "lock-step differential execution for all nine structures (TDigest with K0..K3, CMS with u32 counters): (1) pre-clear history of 1..1e4 operations incl. failed inserts/unions, clear(), then the cleared structure and a freshly constructed one (same configuration; eviction/sampling RNG rewound to the same stream) receive the same continuation of 1..2000 operations and every observable and every return value is compared after every step (bit-exact for floats); (2) clones at random points: equal observables at clone time, clone unchanged by mutation of the original and vice versa; (3) is_empty() right after creation/clear and after the first successful add; configuration getters (k, m, w, d, b, width, epsilon, delta, ...) are part of the compared observables; 15 % of the T-digest clear runs first poison the digest with an operation that panics half-way. non-trivial = run whose pre-clear history had >= 10 operations and whose continuation had >= 10; distinct = (structure, config, seed) tuples";
 pub const ASSUMPTIONS: &[&str] = &[
     "the counter RNG gives the cleared structure the same RNG stream as the fresh one; clone tests use an ordinary seeded RNG",
     "is_empty is asserted only right after creation/clear and after a successful add with no deletes in between",
@@ -32,6 +32,9 @@ trait Obj {
     fn boxed_clone(&self) -> Box<dyn Obj>;
     /// true if `apply(w)` is a plain successful add of a positive amount
     fn is_plain_add(&self, w: u64) -> bool;
+    /// leave the structure in whatever state an operation that panics half-way leaves it in
+    /// (default: nothing to do)
+    fn poison(&mut self) {}
 }
 
 fn key(u: &[u64], w: u64) -> u64 {
@@ -85,6 +88,7 @@ impl<F: Flt + 'static, M: Fn() -> F + Clone + 'static> Obj for FilterObj<F, M> {
     fn obs(&self) -> Vec<u64> {
         let o = c12::observe(&self.f, &self.u);
         let mut v = vec![Flt::len(&self.f) as u64, Flt::is_empty(&self.f) as u64];
+        v.push(fnv(self.f.dump().to_string().split("\"slots\"").next().unwrap_or("").as_bytes()));
         let d = format!("{:?}", o);
         v.push(fnv(d.as_bytes()));
         v
@@ -150,6 +154,8 @@ impl Obj for CmsObj {
     fn obs(&self) -> Vec<u64> {
         let mut v: Vec<u64> = self.u.iter().map(|k| self.c.query_point(k) as u64).collect();
         v.push(self.c.is_empty() as u64);
+        v.push(self.c.w() as u64);
+        v.push(self.c.d() as u64);
         v
     }
     fn clear(&mut self) {
@@ -193,7 +199,7 @@ impl Obj for HllObj {
         }
     }
     fn obs(&self) -> Vec<u64> {
-        vec![fnv(self.h.registers()), self.h.count() as u64, self.h.is_empty() as u64]
+        vec![fnv(self.h.registers()), self.h.count() as u64, self.h.is_empty() as u64, self.h.b() as u64, self.h.m() as u64]
     }
     fn clear(&mut self) {
         self.h.clear()
@@ -256,7 +262,7 @@ impl Obj for TdObj {
     }
     fn obs(&self) -> Vec<u64> {
         let t = &self.t;
-        let mut v = vec![t.is_empty() as u64, t.count().to_bits(), t.sum().to_bits(), t.min().to_bits(), t.max().to_bits(), t.n_centroids() as u64];
+        let mut v = vec![t.is_empty() as u64, t.min().to_bits(), t.max().to_bits(), t.count().to_bits(), t.sum().to_bits(), t.n_centroids() as u64, t.delta().to_bits(), t.max_backlog_size() as u64];
         if !t.is_empty() {
             for q in [0.0, 0.01, 0.1, 0.25, 0.5, 0.75, 0.9, 0.99, 1.0] {
                 v.push(t.quantile(q).to_bits());
@@ -280,6 +286,18 @@ impl Obj for TdObj {
     fn is_plain_add(&self, w: u64) -> bool {
         (w >> 60) <= 12
     }
+    fn poison(&mut self) {
+        // +-1e308 with weight 10: the products overflow to +-inf, fusing them gives a NaN mean and
+        // the next compression panics inside its sort (observed on the pinned tree); the panic is
+        // caught here, the digest is then cleared by the caller
+        let t = &mut self.t;
+        let _ = guarded(|| {
+            t.insert_weighted(1e308, 10.0);
+            t.insert_weighted(-1e308, 10.0);
+            let _ = t.count();
+            let _ = t.quantile(0.5);
+        });
+    }
 }
 
 // ---- reservoir -------------------------------------------------------------------------------
@@ -302,6 +320,7 @@ impl Obj for ResObj {
         let mut v = self.s.reservoir().clone();
         v.push(self.s.i() as u64);
         v.push(self.s.is_empty() as u64);
+        v.push(self.s.k() as u64);
         v
     }
     fn clear(&mut self) {
@@ -341,7 +360,7 @@ impl Obj for LossyObj {
         a.sort_unstable();
         let mut b: Vec<u64> = self.l.query(0.1).collect();
         b.sort_unstable();
-        let mut v = vec![self.l.n() as u64, a.len() as u64, b.len() as u64];
+        let mut v = vec![self.l.n() as u64, a.len() as u64, b.len() as u64, self.l.width() as u64, self.l.epsilon().to_bits()];
         v.push(fnv(&a.iter().flat_map(|x| x.to_le_bytes()).collect::<Vec<u8>>()));
         v.push(fnv(&b.iter().flat_map(|x| x.to_le_bytes()).collect::<Vec<u8>>()));
         v
@@ -379,6 +398,7 @@ impl Obj for HeapObj {
     fn obs(&self) -> Vec<u64> {
         let mut v: Vec<u64> = self.h.iter().collect();
         v.push(self.h.is_empty() as u64);
+        v.push(self.h.k() as u64);
         v
     }
     fn clear(&mut self) {
@@ -467,8 +487,15 @@ fn build(fam: usize, r: &mut FastRng, counter_rng: bool) -> Box<dyn FnMut() -> B
             })
         }
         10 => {
-            let width = *r.pick(&[1usize, 2, 3, 10, 100]);
-            Box::new(move || Box::new(LossyObj { l: LossyCounter::with_width(width), u: Rc::clone(&u) }))
+            // any width >= 1; clear() must keep it (1/(1/w) rounds up for some widths, e.g. 49, 98, 103)
+            let width = match r.below(4) {
+                0 => *r.pick(&[1usize, 2, 3, 10, 100]),
+                1 => *r.pick(&[49usize, 98, 103, 107, 161, 187, 196, 197]),
+                _ => 1 + r.below(400) as usize,
+            };
+            let eps = *r.pick(&[0.5, 0.3, 0.07, 0.011, 0.003]);
+            let by_eps = r.chance(0.3);
+            Box::new(move || Box::new(LossyObj { l: if by_eps { LossyCounter::with_epsilon(eps) } else { LossyCounter::with_width(width) }, u: Rc::clone(&u) }))
         }
         _ => {
             let k = *r.pick(&[1usize, 2, 3, 10]);
@@ -503,6 +530,7 @@ fn clear_test(ctx: &Ctx, i: usize, rep: &mut Report) {
     let long_cont = r.chance(0.2);
     let cont_n = 1 + r.below(if long_cont { 2000 } else { 150 }) as usize;
     let wseed = r.next();
+    let poison = r.chance(0.15);
     let mut name = String::new();
     let res = guarded(|| -> Option<(String, String)> {
         let mut s = mk();
@@ -522,6 +550,11 @@ fn clear_test(ctx: &Ctx, i: usize, rep: &mut Report) {
             added = added || plain;
         }
         let _ = added;
+        // an operation that dies half-way (a panic inside a T-digest compression on overflowing
+        // products) is a failed operation too: clear() must still give a fresh structure
+        if poison {
+            s.poison();
+        }
         s.clear();
         let mut f = mk();
         if !s.is_empty() {
